@@ -653,7 +653,10 @@ pub struct SimReqBody {
     bytes: Vec<u8>,
     pieces: Vec<usize>,
     pub writes: Arc<Mutex<(u32, u32)>>, // (write_body calls, resets)
-    fail_first: bool,
+    /// Like a body streamed from a file or a reader: what has been handed to a writer is gone
+    /// until `reset()` rewinds.
+    cursor: usize,
+    piece: usize,
 }
 
 impl SimReqBody {
@@ -679,22 +682,30 @@ impl SimReqBody {
             bytes: v.bytes.clone(),
             pieces,
             writes: Arc::new(Mutex::new((0, 0))),
-            fail_first: false,
+            cursor: 0,
+            piece: 0,
         }
+    }
+
+    /// Takes the next piece out of the source (it is consumed whether or not the write succeeds).
+    fn take_piece(&mut self) -> Option<std::ops::Range<usize>> {
+        if self.cursor >= self.bytes.len() {
+            return None;
+        }
+        let want = self.pieces.get(self.piece).copied().unwrap_or(usize::MAX).max(1);
+        self.piece += 1;
+        let n = want.min(self.bytes.len() - self.cursor);
+        let r = self.cursor..self.cursor + n;
+        self.cursor += n;
+        Some(r)
     }
 }
 
 impl conjure_http::client::WriteBody<SimWriter> for SimReqBody {
     fn write_body(&mut self, w: &mut SimWriter) -> Result<(), Error> {
         self.writes.lock().unwrap().0 += 1;
-        let _ = self.fail_first;
-        let mut pos = 0;
-        for n in &self.pieces {
-            if *n == 0 {
-                continue;
-            }
-            w.write_all(&self.bytes[pos..pos + n]).map_err(Error::internal_safe)?;
-            pos += n;
+        while let Some(r) = self.take_piece() {
+            w.write_all(&self.bytes[r]).map_err(Error::internal_safe)?;
         }
         w.flush().map_err(Error::internal_safe)?;
         Ok(())
@@ -703,6 +714,8 @@ impl conjure_http::client::WriteBody<SimWriter> for SimReqBody {
     fn reset(&mut self) -> bool {
         self.writes.lock().unwrap().1 += 1;
         self.ctx.count("body.request_reset");
+        self.cursor = 0;
+        self.piece = 0;
         true
     }
 }
@@ -711,16 +724,15 @@ impl conjure_http::client::AsyncWriteBody<SimAsyncWriter> for SimReqBody {
     async fn write_body(self: Pin<&mut Self>, mut w: Pin<&mut SimAsyncWriter>) -> Result<(), Error> {
         let this = self.get_mut();
         this.writes.lock().unwrap().0 += 1;
-        let mut pos = 0;
-        for n in &this.pieces {
-            let mut piece = &this.bytes[pos..pos + n];
+        while let Some(r) = this.take_piece() {
+            let bytes = this.bytes[r].to_vec();
+            let mut piece = &bytes[..];
             while !piece.is_empty() {
                 let k = poll_fn(|cx| w.as_mut().get_mut().poll_write(cx, piece))
                     .await
                     .map_err(Error::internal_safe)?;
                 piece = &piece[k..];
             }
-            pos += n;
         }
         Ok(())
     }
@@ -729,6 +741,8 @@ impl conjure_http::client::AsyncWriteBody<SimAsyncWriter> for SimReqBody {
         let this = self.get_mut();
         this.writes.lock().unwrap().1 += 1;
         this.ctx.count("body.request_reset");
+        this.cursor = 0;
+        this.piece = 0;
         true
     }
 }
@@ -819,6 +833,8 @@ impl Handler {
         args: Vec<(&'static str, Box<dyn DynVal>)>,
         ctx_probe: Option<String>,
     ) -> Result<Box<dyn DynVal>, Error> {
+        crate::ctx::seam();
+        self.ctx.mark(0x2000 + ep as u64);
         let mut core = self.core.lock().unwrap();
         let ret = core.script.get_mut(&ep).and_then(|q| q.pop_front());
         let meta = &ir().eps[ep];
